@@ -36,7 +36,7 @@ Qed.
 
 Lemma complete_true s : complete s = true <-> remaining s = 0 /\ merging s = 0 /\ runs s <= 1.
 Proof.
-  unfold complete. rewrite !andb_true_iff, !Nat.eqb_eq, Nat.leb_le. tauto.
+  unfold complete. rewrite !andb_true_iff, orb_true_iff, !Nat.eqb_eq. lia.
 Qed.
 
 Lemma complete_false s : complete s = false <-> ~ (remaining s = 0 /\ merging s = 0 /\ runs s <= 1).
@@ -281,6 +281,167 @@ Proof.
     + assert (0 < total_blocks ks) as P by lia. specialize (Q1 P). lia.
 Qed.
 
+(* ---------- the predicate is_complete itself ---------- *)
+
+(* what `complete` (MergeQueueInner::is_complete as written) means *)
+Theorem mq_complete_means_quiescent s :
+  complete s = true <-> remaining s = 0 /\ merging s = 0 /\ runs s <= 1.
+Proof. apply complete_true. Qed.
+
+(* once complete, always complete: poll_merge_next's Finished and the later take_sorted_run (two
+   separate critical sections) see the same answer; no run can appear or be in flight any more *)
+Theorem mq_complete_is_stable ks s s' :
+  mreach ks s -> mstep s s' -> complete s = true -> complete s' = true.
+Proof.
+  intros R Hs Hc. destruct (minv_reach _ _ R) as [A B C K J E T1 T2 Q1 Q2].
+  apply complete_true in Hc. apply complete_true.
+  destruct Hs as [i k s H Hr | i k s H Hr | i p s H Hp Hc' | i p s H Hp Hc' Hr | i p s H Hp Hc' Hr
+                 | i s H Hr | i s H Hr | i s H Hc' Hr | i s H Hc' Hr | i s H Hc' | i s H]; red_all; try lia.
+  - pose proof (count_nth_pos is_coll _ _ _ H eq_refl). lia.
+  - pose proof (count_nth_pos is_busy _ _ _ H eq_refl). lia.
+Qed.
+
+(* a partition may leave the merge phase (MTake / MDrain / MDone) only when the queue is complete *)
+Theorem mq_finished_only_when_complete ks s :
+  mreach ks s -> 0 < count is_take (mps s) + count is_drain (mps s) + count is_done (mps s) -> complete s = true.
+Proof.
+  intros R H. destruct (minv_reach _ _ R) as [A B C K J E T1 T2 Q1 Q2]. apply complete_true. lia.
+Qed.
+
+(* ---------- the relational model only performs the executable queue operations ---------- *)
+(* q simulates s: same counters, and every parked partition has its waker stored (the real queue may
+   additionally hold stale wakers of partitions that were polled again) *)
+Definition q_sim (s : mst) (q : mq) : Prop :=
+  q_runs q = runs s /\ q_remaining q = remaining s /\ q_merging q = merging s /\
+  length (q_wakers q) = length (mps s) /\
+  forall i, nth_error (mps s) i = Some MParked -> nth_error (q_wakers q) i = Some true.
+
+Lemma q_complete_sim s q : q_sim s q -> q_complete q = complete s.
+Proof. intros (H1 & H2 & H3 & _). unfold q_complete, complete. rewrite H1, H2, H3. reflexivity. Qed.
+
+Lemma nth_upd_other {A} (l : list A) i j p : i <> j -> nth_error (upd l i p) j = nth_error l j \/ length l <= i.
+Proof.
+  revert i j. induction l as [|a l IH]; intros i j Hn.
+  - right. cbn. lia.
+  - destruct i as [|i], j as [|j].
+    + congruence.
+    + left. reflexivity.
+    + left. rewrite upd_cons_S. reflexivity.
+    + rewrite upd_cons_S. cbn [nth_error length].
+      destruct (IH i j) as [X|X]; [congruence|left; exact X|right; lia].
+Qed.
+
+Lemma nth_upd_other' {A} (l : list A) i j p old :
+  nth_error l i = Some old -> i <> j -> nth_error (upd l i p) j = nth_error l j.
+Proof.
+  intros H Hn. destruct (nth_upd_other l i j p Hn) as [X|X]; [exact X|].
+  pose proof (nth_error_lt _ _ _ H). lia.
+Qed.
+
+Lemma parked_after_upd l i old p j :
+  nth_error l i = Some old -> p <> MParked -> nth_error (upd l i p) j = Some MParked -> nth_error l j = Some MParked.
+Proof.
+  intros H Hp Hj. destruct (Nat.eq_dec i j) as [->|Hn].
+  - rewrite (nth_upd_eq _ _ _ p H) in Hj. congruence.
+  - rewrite (nth_upd_other' _ _ _ _ _ H Hn) in Hj. exact Hj.
+Qed.
+
+Lemma no_parked_after_wake l j : nth_error (map mwake l) j <> Some MParked.
+Proof.
+  rewrite nth_error_map. destruct (nth_error l j) as [[]|]; cbn; congruence.
+Qed.
+
+Lemma clear_length q : length (q_clear q) = length (q_wakers q).
+Proof. unfold q_clear. apply map_length. Qed.
+
+Theorem mq_model_steps_are_queue_ops ks s s' q :
+  mreach ks s -> mstep s s' -> q_sim s q ->
+  exists q', q_sim s' q' /\
+    ((exists k, q' = fst (q_add q k)) \/ (exists p, q' = fst (q_poll q p)) \/
+     q' = fst (q_merge_done q) \/ q' = fst (fst (q_take q)) \/ q' = q).
+Proof.
+  intros R Hs Sim. pose proof (q_complete_sim _ _ Sim) as QC.
+  destruct (minv_reach _ _ R) as [A B C K J E T1 T2 Q1 Q2].
+  destruct Sim as (S1 & S2 & S3 & SL & SP).
+  destruct Hs as [i k s H Hr | i k s H Hr | i p s H Hp Hc | i p s H Hp Hc Hr | i p s H Hp Hc Hr
+                 | i s H Hr | i s H Hr | i s H Hc Hr | i s H Hc Hr | i s H Hc | i s H].
+  - (* finalize = q_add *)
+    exists (fst (q_add q k)). split; [|left; exists k; reflexivity].
+    unfold q_add. destruct (Nat.eqb_spec (q_remaining q) 0) as [Z|NZ]; [lia|]. cbn [fst q_runs q_remaining q_merging q_wakers].
+    unfold q_sim; repeat split; cbn [runs remaining merging mps q_runs q_remaining q_merging q_wakers fst]; try lia.
+    + rewrite (length_upd _ _ _ _ H). exact SL.
+    + intros j Hj. apply SP. eapply parked_after_upd in Hj; [exact Hj|exact H|discriminate].
+  - exfalso. facts H MErr. red_all. lia.
+  - (* poll -> Finished: queue unchanged *)
+    exists q. split; [|right; left; exists i; unfold q_poll; rewrite QC, Hc; reflexivity].
+    unfold q_sim; repeat split; cbn [runs remaining merging mps q_runs q_remaining q_merging q_wakers fst]; try assumption.
+    + rewrite (length_upd _ _ _ _ H). exact SL.
+    + intros j Hj. apply SP. eapply parked_after_upd in Hj; [exact Hj|exact H|discriminate].
+  - (* poll -> Pending: waker stored *)
+    exists (fst (q_poll q i)). split; [|right; left; exists i; reflexivity].
+    unfold q_poll. rewrite QC, Hc. destruct (Nat.ltb_spec (q_runs q) 2) as [L2|L2]; [|lia].
+    cbn [fst q_runs q_remaining q_merging q_wakers].
+    assert (Hi : exists b, nth_error (q_wakers q) i = Some b).
+    { destruct (nth_error (q_wakers q) i) eqn:X; [eauto|]. apply nth_error_None in X.
+      pose proof (nth_error_lt _ _ _ H). lia. }
+    destruct Hi as (b & Hb).
+    unfold q_sim; repeat split; cbn [runs remaining merging mps q_runs q_remaining q_merging q_wakers fst]; try assumption.
+    + rewrite (length_upd _ _ _ _ H), (length_upd _ _ _ _ Hb). exact SL.
+    + intros j Hj. destruct (Nat.eq_dec i j) as [<-|Hn].
+      * apply (nth_upd_eq _ _ _ true Hb).
+      * rewrite (nth_upd_other' _ _ _ _ _ Hb Hn). apply SP.
+        rewrite (nth_upd_other' _ _ _ _ _ H Hn) in Hj. exact Hj.
+  - (* poll -> two runs popped *)
+    exists (fst (q_poll q i)). split; [|right; left; exists i; reflexivity].
+    unfold q_poll. rewrite QC, Hc. destruct (Nat.ltb_spec (q_runs q) 2) as [L2|L2]; [lia|].
+    cbn [fst q_runs q_remaining q_merging q_wakers].
+    unfold q_sim; repeat split; cbn [runs remaining merging mps q_runs q_remaining q_merging q_wakers fst]; try lia.
+    + rewrite (length_upd _ _ _ _ H). exact SL.
+    + intros j Hj. apply SP. eapply parked_after_upd in Hj; [exact Hj|exact H|discriminate].
+  - (* merge_done *)
+    exists (fst (q_merge_done q)). split; [|right; right; left; reflexivity].
+    unfold q_merge_done. cbn [fst q_runs q_remaining q_merging q_wakers].
+    pose proof (nth_wake _ _ _ H) as H'. cbn [mwake] in H'.
+    unfold q_sim; repeat split; cbn [runs remaining merging mps q_runs q_remaining q_merging q_wakers fst]; try lia.
+    + rewrite clear_length, (length_upd _ _ _ _ H'), map_length. exact SL.
+    + intros j Hj. exfalso. eapply parked_after_upd in Hj; [|exact H'|discriminate].
+      exact (no_parked_after_wake _ _ Hj).
+  - exfalso. facts H MErr. red_all. lia.
+  - (* take -> Some *)
+    exists (fst (fst (q_take q))). split; [|right; right; right; left; reflexivity].
+    unfold q_take. rewrite QC, Hc. destruct (Nat.eqb_spec (q_runs q) 0) as [Z|NZ]; [lia|].
+    cbn [fst q_runs q_remaining q_merging q_wakers].
+    pose proof (nth_wake _ _ _ H) as H'. cbn [mwake] in H'.
+    unfold q_sim; repeat split; cbn [runs remaining merging mps q_runs q_remaining q_merging q_wakers fst]; try lia.
+    + rewrite clear_length, (length_upd _ _ _ _ H'), map_length. exact SL.
+    + intros j Hj. exfalso. eapply parked_after_upd in Hj; [|exact H'|discriminate].
+      exact (no_parked_after_wake _ _ Hj).
+  - (* take -> None *)
+    exists (fst (fst (q_take q))). split; [|right; right; right; left; reflexivity].
+    unfold q_take. rewrite QC, Hc. destruct (Nat.eqb_spec (q_runs q) 0) as [Z|NZ]; [|lia].
+    cbn [fst q_runs q_remaining q_merging q_wakers].
+    pose proof (nth_wake _ _ _ H) as H'. cbn [mwake] in H'.
+    unfold q_sim; repeat split; cbn [runs remaining merging mps q_runs q_remaining q_merging q_wakers fst]; try lia.
+    + rewrite clear_length, (length_upd _ _ _ _ H'), map_length. exact SL.
+    + intros j Hj. exfalso. eapply parked_after_upd in Hj; [|exact H'|discriminate].
+      exact (no_parked_after_wake _ _ Hj).
+  - (* take before complete: unreachable *)
+    exfalso. apply complete_false in Hc. facts H MErr. red_all. lia.
+  - (* drain_done: queue untouched *)
+    exists q. split; [|right; right; right; right; reflexivity].
+    unfold q_sim; repeat split; cbn [runs remaining merging mps q_runs q_remaining q_merging q_wakers fst]; try assumption.
+    + rewrite (length_upd _ _ _ _ H). exact SL.
+    + intros j Hj. apply SP. eapply parked_after_upd in Hj; [exact Hj|exact H|discriminate].
+Qed.
+
+Example mq_sim_init ks : q_sim (minit ks) (q_new (length ks)).
+Proof.
+  unfold q_sim, minit, q_new. cbn [q_runs q_remaining q_merging q_wakers runs remaining merging mps].
+  repeat split; try reflexivity.
+  - rewrite repeat_length, map_length. reflexivity.
+  - intros i Hi. rewrite nth_error_map in Hi. destruct (nth_error ks i); cbn in Hi; discriminate.
+Qed.
+
 (* every hypothesis above is satisfiable: a complete 2-partition run *)
 Example mq_run_example : exists s, mreach [1] s /\ mall_done s /\ taken s = 1.
 Proof.
@@ -297,3 +458,5 @@ Qed.
 Print Assumptions mq_no_deadlock.
 Print Assumptions mq_progress_measure_decreases.
 Print Assumptions mq_exactly_one_drainer.
+Print Assumptions mq_complete_is_stable.
+Print Assumptions mq_model_steps_are_queue_ops.
